@@ -198,3 +198,118 @@ func runRt(c map[string]any, ev map[string]any) error {
 	ev["dauth"] = auth
 	return nil
 }
+
+// runUpd (C16): a session of account "x" (old privileges c["old"]) is live while an administrator changes the
+// account's privileges to c["S"] - bitmap c["bytes"] = ToBytes(S) from the specification - through Set User (353)
+// or the modify branch of Update User (349).  Recorded:
+//
+//	reply    the administrator's reply class
+//	lwire    the user-access field (354) the session got at login
+//	n354     how many user-access transactions the session received because of the change
+//	uwire    the bytes of the last of them
+//	dauth    the privilege numbers i with Authorize(i) for the live session afterwards
+//	disk     the account's bitmap when a fresh account manager loads the directory
+func runUpd(c map[string]any, ev map[string]any) error {
+	bits, err := bytes8(c["bytes"])
+	if err != nil {
+		return err
+	}
+	old := bitmapOf(c["old"])
+	w, err := sim.NewWorld(sim.WorldOpts{Accounts: []sim.Acct{
+		{Login: "adm", Name: "Admin", Password: "ap"},
+		{Login: "x", Name: "X", Password: "xp"},
+	}})
+	if err != nil {
+		return err
+	}
+	defer w.Close()
+	if err := setAccess(w, "adm", sim.AllAccess()); err != nil {
+		return err
+	}
+	if err := setAccess(w, "x", old); err != nil {
+		return err
+	}
+	x := w.Dial("")
+	if rep, err := x.Login(sim.LoginOpts{Login: "x", Password: "xp", Name: "X"}); err != nil || rep.Err != 0 {
+		return fmt.Errorf("upd: login x: %v err=%d", err, rep.Err)
+	}
+	lwire := []int{}
+	for _, f := range x.Drain() {
+		if f.IsReply == 0 && f.Type == sim.TUserAccess {
+			if b, ok := f.Get(sim.FUserAccess); ok {
+				lwire = sim.Ints(b)
+			}
+		}
+	}
+	adm := w.Dial("")
+	if rep, err := adm.Login(sim.LoginOpts{Login: "adm", Password: "ap", Name: "Admin"}); err != nil || rep.Err != 0 {
+		return fmt.Errorf("upd: login adm: %v err=%d", err, rep.Err)
+	}
+	if err := x.Settle(); err != nil {
+		return err
+	}
+	x.Drain()
+	adm.Drain()
+	var id uint32
+	switch intOf(c["via"]) {
+	case 353:
+		id = adm.Send(sim.TSetUser, sim.Fld(sim.FUserLogin, sim.Obfuscate([]byte("x"))), sim.Fld(sim.FUserName, []byte("X")),
+			sim.Fld(sim.FUserPassword, []byte{0}), sim.Fld(sim.FUserAccess, bits[:]))
+	case 349:
+		id = adm.Send(sim.TUpdateUser, sim.Fld(sim.FData, encSub(sim.Fld(sim.FUserLogin, sim.Obfuscate([]byte("x"))),
+			sim.Fld(sim.FUserName, []byte("X")), sim.Fld(sim.FUserPassword, []byte{0}), sim.Fld(sim.FUserAccess, bits[:]))))
+	default:
+		return fmt.Errorf("upd: via %v", c["via"])
+	}
+	settleErr := adm.Settle()
+	reply := "none"
+	for _, f := range adm.Drain() {
+		if f.IsReply == 1 && f.ID == id {
+			reply = "ok"
+			if f.Err != 0 {
+				reply = "err"
+			}
+		}
+	}
+	if settleErr != nil && reply == "none" {
+		reply = "closed"
+	}
+	ev["reply"] = reply
+	if !x.ServerDone() {
+		_ = x.Settle()
+	}
+	n354, uwire := 0, []int{}
+	for _, f := range x.Drain() {
+		if f.IsReply == 0 && f.Type == sim.TUserAccess {
+			n354++
+			if b, ok := f.Get(sim.FUserAccess); ok {
+				uwire = sim.Ints(b)
+			}
+		}
+	}
+	ev["lwire"] = lwire
+	ev["n354"] = n354
+	ev["uwire"] = uwire
+	auth := []int{}
+	if cc := x.ServerConn(); cc != nil {
+		for i := 0; i < 64; i++ {
+			if cc.Authorize(i) {
+				auth = append(auth, i)
+			}
+		}
+		ev["live"] = true
+	} else {
+		ev["live"] = false
+	}
+	ev["dauth"] = auth
+	disk := []int{}
+	fresh, err := verifexport.NewYAMLAccountManager(filepath.Join(w.Config, "Users"))
+	if err != nil {
+		return fmt.Errorf("upd: reload accounts: %w", err)
+	}
+	if a := fresh.Get("x"); a != nil {
+		disk = sim.Ints(a.Access[:])
+	}
+	ev["disk"] = disk
+	return nil
+}
